@@ -260,7 +260,7 @@ STANDARD = {
 
 
 # recorded sessions (code -> spec, harness/sessiontrace.py): operation weights per property, (traces, steps) quick / thorough
-QUIET = dict(cli=0, redeliver=0, damage=0, restore=0, delete=0, tear=0, cachedir=0, purge=0)
+QUIET = dict(cli=0, redeliver=0, damage=0, restore=0, delete=0, tear=0, cachedir=0, purge=0, block=0)
 PROFILES = {
     "C01": (dict(QUIET, open=25, load=40, mutate=6, copy=8, drop=3, redeliver=7), (0, 1)),
     "C02": (dict(QUIET, open=18, load=45, mutate=16, copy=3, drop=2, redeliver=5), (0, 1)),
@@ -271,7 +271,7 @@ PROFILES = {
     "C09": (dict(open=42, cli=8, tear=16, delete=6, cachedir=8, load=3, mutate=0, redeliver=0, damage=0, restore=0), (0, 1)),
     "C10": (dict(), (0, 1)),
     "C12": (dict(open=42, cli=12, redeliver=6, load=8, copy=6, damage=0, restore=0), (0, 1)),
-    "C13": (dict(open=42, cli=12, redeliver=8, load=4, mutate=0, damage=0, restore=0), (0, 1)),
+    "C13": (dict(open=42, cli=12, redeliver=8, load=4, mutate=0, damage=0, restore=0, block=6), (0, 1)),
     "C14": (dict(open=40, redeliver=14, load=3, mutate=0, damage=2, tear=2), (0, 1)),
     "C16": (dict(open=40, redeliver=14, load=3, mutate=0, damage=2, tear=2), (0, 1)),
     "C18": (dict(open=40, damage=20, restore=8, redeliver=0, load=3, mutate=0, cli=4, tear=2), (0, 1)),
